@@ -92,6 +92,8 @@ type Run struct {
 	stamp        int
 	monitor      bool
 	shareUsed    bool
+	nAsserts     int
+	hadViolation bool
 	preemptSet   bool
 	preemptBound int
 	curOp        string
